@@ -268,6 +268,19 @@ class NetRunner:
             fs = res["findings"].get(pid, [])
             if isinstance(fs, str):
                 raise RuntimeError(fs)
+            if pid == "C01" and evaluations % 4 == 0:
+                import malformed
+                for cls, site, bad in malformed.inject_all(cfg):
+                    if cls != "overlap":
+                        continue
+                    stats["overlap-variants"] += 1
+                    rb = impl.run_floogen(bad)
+                    if rb.ok and "overlap-accepted" not in reported_claims:
+                        reported_claims.add("overlap-accepted")
+                        f = {"claim": "overlap-accepted", "site": site,
+                             "detail": "a description whose expanded ranges overlap is accepted and files are emitted"}
+                        rep.finding(f, {"property": pid, "finding": f, "cfg": bad, "case": name})
+                    break
             if len(samples) < 3 and not fs:
                 samples.append({"case": name, "endpoints": [e["name"] + str(e.get("array", "")) for e in cfg["endpoints"]],
                                 "routers": cfg["routers"], "algo": cfg["routing"]["route_algo"],
@@ -313,6 +326,34 @@ class NetRunner:
                 stats["stopped-early"] += 1
                 break
             handle(name, meta, cfg)
+        if (disagreements or search_mode) and not rep.violations:
+            # search: the tie (or a proof obligation) is broken; look harder for an input on which the
+            # implementation's own output violates the property, around the disagreeing inputs
+            fams, algs = set(), set()
+            for dg in disagreements:
+                c = dg.get("cfg") or {}
+                algs.add(c.get("routing", {}).get("route_algo"))
+                fams.add(c.get("name"))
+            fams = [f for f in fams if f in gen_desc.FAMILIES] or CONFIG[pid]["families"]
+            algs = [a for a in algs if a] or CONFIG[pid]["algos"]
+            srng = random.Random(repr((seed, pid, "search")))
+            t1 = time.time()
+            k = 0
+            while time.time() - t1 < (240 if tier == "thorough" else 60) and not rep.violations and k < 4000:
+                meta, cfg = gen_desc.gen_case(srng, families=fams, algos=algs)
+                k += 1
+                stats["search-cases"] += 1
+                res = run_case(drv, cfg, [pid], model=False)
+                if res["status"] != "ok":
+                    continue
+                for f in res["findings"].get(pid, []):
+                    def still(c, claim=f["claim"]):
+                        r2 = run_case(drv, c, [pid], model=False)
+                        return r2["status"] == "ok" and any(x["claim"] == claim for x in r2["findings"].get(pid, []))
+                    small = shrink(cfg, still)
+                    rep.finding(f, {"property": pid, "finding": f, "cfg": small, "case": f"search:{k}",
+                                    "how": f"./check {pid} --replay <this file>"})
+                    break
         drv.close()
         if disagreements and not rep.violations:
             # the model no longer describes the implementation on this property's slice and the search
